@@ -155,7 +155,9 @@ def check_fragments(ctx, st, pt, parse0, c, frags):
         ctx.decided()
         key = (f.start, f.end)
         if key not in seq_ok:
-            q = rp.slice_pep(p, f.start, f.end)
+            # an ion is a piece of the peptide with its terminal rules written out: it inherits a terminal rule's
+            # modification only together with that terminus
+            q = rp.slice_pep(rp.expand_terminal_static(p), f.start, f.end)
             q.labile = []
             try:
                 d = rp.diff_fields(rp.expected_fields(q), rp.observed_fields(parse0(f.sequence)))
@@ -209,16 +211,12 @@ def check_fragments(ctx, st, pt, parse0, c, frags):
             what, o, e = bad[0]
             d_obs = (f.mass - m_full) if what != 'neutral_mass' else (f.neutral_mass - m_neutral)
             span_len = f.end - f.start
-            k3 = (span_len - 1) * trm
             k4 = -offset_label_shift(p, f.ion_type, f.charge if what != 'neutral_mass' else 0, mono)
             t2 = tol + band + 1e-6
-            predicted = k3 + k4
-            # vocabulary masses are tabulated (6 / 4 decimals); the label path uses their compositions instead
-            named_term = [m for r in p.static for t_ in r.targets if t_ in ('N-Term', 'C-Term') for m in r.mods
-                          if m.named]
-            slack = (span_len - 1) * sum((1e-4 if mono else 1e-3 + 5e-6 * abs(m.avg or 0.0)) for m in named_term)
-            if predicted != 0.0 and abs(d_obs - predicted) <= t2 + 2e-6 * span_len + slack:
-                kf = 'K3' if k3 != 0.0 else 'K4'
+            # K4: under a label the fragmenter leaves the offset atoms / charge carriers unlabelled (the former K3 term,
+            # terminal rules counted per residue, was repaired: a recurrence is reported)
+            if k4 != 0.0 and abs(d_obs - k4) <= t2 + 2e-6 * span_len:
+                kf = 'K4'
             sigk = ('massdiff', f.ion_type if kf else f.ion_type, kf)
             if sigk in reported and kf is None:
                 ctx.viol_counts['ion-mass-differs-from-mass-calculator|'] += 1
